@@ -265,54 +265,6 @@ def check(prog, run):
     from . import c02
     c02.check_block_string_classes(prog, run, "B1", prog.get_class(LEXER, "Lexer"))
 
-    # ---- O1 emission order = parse order
-    r = run.rule("O1", "each print_X emits the slots of X in the order the parser reads them (the fill order of the constructor keywords "
-                       "in the matching parse_* production, Name slots included): slots are taken in source order of their first read in "
-                       "print_X (following helpers that receive the node; the description handed to _with_desc comes first) — text "
-                       "printed in another order is rejected or re-read into different slots", 35)
-    order = nodeshape.child_slots(prog, exclude_name=False)
-    for cname, h, v in reg.entries:
-        if h is None or cname not in order:
-            continue
-        m = pr.find_method(h)
-        if m is None:
-            continue
-        ps = [x for x in m.params if x != prog.self_name(m)]
-        if not ps:
-            continue
-        p0 = ps[0]
-        reads, first = [], []
-
-        def add(attr, front=False):
-            (first if front else reads).append(attr)
-        nodes_in_order = sorted([x for x in ast.walk(m.node) if isinstance(x, (ast.Attribute, ast.Call))], key=lambda x: (x.lineno, x.col_offset))
-        desc_args = set()
-        for n in nodes_in_order:
-            if isinstance(n, ast.Call) and isinstance(n.func, ast.Attribute) and n.func.attr == "_with_desc" and len(n.args) >= 2:
-                for y in ast.walk(n.args[1]):
-                    desc_args.add(id(y))
-        for n in nodes_in_order:
-            if isinstance(n, ast.Attribute) and isinstance(n.value, ast.Name) and n.value.id == p0:
-                add(n.attr, front=id(n) in desc_args)
-            if isinstance(n, ast.Call) and isinstance(n.func, ast.Attribute) and isinstance(n.func.value, ast.Name) and n.func.value.id == "self" \
-                    and any(isinstance(a, ast.Name) and a.id == p0 for a in n.args):
-                hm = pr.find_method(n.func.attr)
-                if hm is not None:
-                    hps = [x for x in hm.params if x != prog.self_name(hm)]
-                    for y in sorted([x for x in ast.walk(hm.node) if isinstance(x, ast.Attribute)], key=lambda x: (x.lineno, x.col_offset)):
-                        if hps and isinstance(y.value, ast.Name) and y.value.id == hps[0]:
-                            add(y.attr)
-        seen = []
-        for a in first + reads:
-            if a in order[cname] and a not in seen:
-                seen.append(a)
-        want = [x for x in order[cname] if x in seen]
-        r.instance("%s emits %s" % (h, seen))
-        if seen != want:
-            run.report(r, "%s:ASTPrinter.%s:emission-order(%s)" % (PRINTER, h, ">".join(seen)), m.where(),
-                       "%s emits the slots of %s in the order %s but the parser reads them in the order %s: the printed text does not "
-                       "parse back (or parses into different slots)" % (h, cname, seen, want))
-
     # ---- P1 purity
     r = run.rule("P1", "no method of ASTPrinter or helper of printer.py writes module/class state or iterates a set", 30)
     for f in fns:
@@ -524,6 +476,26 @@ def check_printer_language(prog, run, rule_id):
                         "it): a form chosen under the wrong condition — the short `{...}` form for an operation with variables — drops "
                         "content that is there; slots no execution prints at all are D2's findings and not repeated here; and no two "
                         "name-valued slots of one node are printed next to each other with only whitespace between them", 60)
+    # ---- O1 emission order = parse order, on the slot-marked language
+    ro = run.rule("O1", "each print_X emits the slots of X in the order the parser reads them (the fill order of the constructor keywords in "
+                        "the matching parse_* production, Name slots included), decided on the language: in no string that print_X can "
+                        "produce for any slot state is SLOT(a) emitted after SLOT(b) when the parser reads a before b - whatever order "
+                        "the code loads the slots in; text printed in another order is rejected or re-read into different slots", 30)
+    porder = nodeshape.child_slots(prog, exclude_name=False)
+    for c in sorted(pl.registry):
+        if c not in pl.shapes.ncs or c not in porder:
+            continue
+        try:
+            n_states, viol = pl.slot_order(c, porder[c])
+        except printlang.Unsupported as e:
+            raise AnalysisError("C03.O1: cannot interpret the printing of %s: %s" % (c, e))
+        ro.instance("%s: %d slot states, parse order %s" % (c, n_states, porder[c]))
+        if viol is not None:
+            st, first_, then_ = viol
+            run.report(ro, "%s:ASTPrinter.%s:emission-order(%s>%s)" % (PRINTER, pl.registry[c] if isinstance(pl.registry[c], str) else c, first_, then_),
+                       "src/py_gql/lang/printer.py",
+                       "a %s can be printed with its `%s` before its `%s`, but the parser reads `%s` first: the printed text does not parse "
+                       "back (or parses into different slots)" % (c, first_, then_, then_))
     for c in sorted(pl.registry):
         if c not in pl.shapes.ncs:
             continue
